@@ -266,11 +266,42 @@ func mkEntry(rng *rand.Rand, kind string, n int, tag string) crashEntry {
 	}
 }
 
+// readFirst names the read path that gets to see the entry first.  The first read that finds a file unusable
+// drops the entry, after which every other path answers miss: each path must have its turn at being first.
+var readFirst string
+
+// readPathsOf lists the read paths of readEntry for a kind.
+func readPathsOf(kind cache.EntryKind) []string {
+	switch kind {
+	case cache.CAS:
+		return []string{"disk.Get(size unknown)", "disk.GetZstd(size known)", "disk.GetZstd(size unknown)", "disk.Get(size known)", "ByteStream.Read", "HTTP GET"}
+	case cache.AC:
+		return []string{"disk.Get(size unknown)", "GetActionResult", "HTTP GET /ac/"}
+	}
+	return []string{"disk.Get(size unknown)", "HTTP GET /ac/"}
+}
+
 func readEntry(f *fe.Fixture, kind cache.EntryKind, hash string, n int, cands ...[]byte) map[string][]byte {
+	if readFirst == "" {
+		return readEntryOnly(f, kind, hash, n, "", cands...)
+	}
+	first := readEntryOnly(f, kind, hash, n, readFirst, cands...)
+	out := readEntryOnly(f, kind, hash, n, "", cands...)
+	if v, ok := first[readFirst]; ok {
+		out[readFirst] = v
+	}
+	return out
+}
+
+func readEntryOnly(f *fe.Fixture, kind cache.EntryKind, hash string, n int, only string, cands ...[]byte) map[string][]byte {
 	// returns per path: nil = miss, otherwise the bytes (an error is reported as the single byte slice {0xEE} + message)
 	out := map[string][]byte{}
 	ctx := context.Background()
+	want := func(name string) bool { return only == "" || only == name }
 	get := func(name string, size int64) {
+		if !want(name) {
+			return
+		}
 		rc, _, err := f.Cache.Get(ctx, kind, hash, size, 0)
 		if err != nil {
 			out[name] = append([]byte{0xEE}, []byte(err.Error())...)
@@ -291,7 +322,7 @@ func readEntry(f *fe.Fixture, kind cache.EntryKind, hash string, n int, cands ..
 		out[name] = b
 	}
 	get("disk.Get(size unknown)", -1)
-	if kind == cache.AC {
+	if kind == cache.AC && want("GetActionResult") {
 		cctx, cancel := fe.Ctx()
 		ar, err := f.AC.GetActionResult(cctx, &pb.GetActionResultRequest{ActionDigest: &pb.Digest{Hash: hash, SizeBytes: 9}})
 		cancel()
@@ -314,7 +345,7 @@ func readEntry(f *fe.Fixture, kind cache.EntryKind, hash string, n int, cands ..
 			out["GetActionResult"] = b
 		}
 	}
-	if kind != cache.CAS {
+	if kind != cache.CAS && want("HTTP GET /ac/") {
 		c, body, _, e := f.HTTPDo(http.MethodGet, "/ac/"+hash, nil, nil)
 		switch {
 		case e != nil:
@@ -344,6 +375,9 @@ func readEntry(f *fe.Fixture, kind cache.EntryKind, hash string, n int, cands ..
 			} else {
 				name = "disk.GetZstd(size known)"
 			}
+			if !want(name) {
+				continue
+			}
 			rc, _, err := f.Cache.GetZstd(ctx, hash, known, 0)
 			switch {
 			case err != nil:
@@ -367,17 +401,22 @@ func readEntry(f *fe.Fixture, kind cache.EntryKind, hash string, n int, cands ..
 			}
 		}
 		get("disk.Get(size known)", int64(n))
-		b, err := bsRead(f, fmt.Sprintf("blobs/%s/%d", hash, n), 0, 0)
-		switch {
-		case status.Code(err) == codes.NotFound:
-			out["ByteStream.Read"] = nil
-		case err != nil:
-			out["ByteStream.Read"] = append([]byte{0xEE}, []byte(err.Error())...)
-		default:
-			if b == nil {
-				b = []byte{}
+		if want("ByteStream.Read") {
+			b, err := bsRead(f, fmt.Sprintf("blobs/%s/%d", hash, n), 0, 0)
+			switch {
+			case status.Code(err) == codes.NotFound:
+				out["ByteStream.Read"] = nil
+			case err != nil:
+				out["ByteStream.Read"] = append([]byte{0xEE}, []byte(err.Error())...)
+			default:
+				if b == nil {
+					b = []byte{}
+				}
+				out["ByteStream.Read"] = b
 			}
-			out["ByteStream.Read"] = b
+		}
+		if !want("HTTP GET") {
+			return out
 		}
 		c, body, _, e := f.HTTPDo(http.MethodGet, "/cas/"+hash, nil, nil)
 		switch {
@@ -420,6 +459,16 @@ func crashOne(scratch string, seq int, rng *rand.Rand, cs CrashCase, kind, write
 	by := []crashEntry{mkEntry(rng, "cas", 5000+rng.Intn(100), "by"), mkEntry(rng, "ac", 40, "by")}
 	for _, e := range by {
 		if err := fA.Cache.Put(ctx, e.kind, e.hash, int64(len(e.data)), bytes.NewReader(e.data)); err != nil {
+			fA.Close()
+			return nil, nil, err
+		}
+	}
+	// ... among them values of no bytes at all (an empty ActionResult, an empty raw value): their complete
+	// file is an empty file
+	zero := []crashEntry{{cache.AC, fmtw.Sha([]byte(fmt.Sprint("zero-ac", rng.Int63()))), []byte{}},
+		{cache.RAW, fmtw.Sha([]byte(fmt.Sprint("zero-raw", rng.Int63()))), []byte{}}}
+	for _, e := range zero {
+		if err := fA.Cache.Put(ctx, e.kind, e.hash, 0, bytes.NewReader(nil)); err != nil {
 			fA.Close()
 			return nil, nil, err
 		}
@@ -550,11 +599,27 @@ func crashOne(scratch string, seq int, rng *rand.Rand, cs CrashCase, kind, write
 		return nil, nil, imgErr
 	}
 	// restart on the image
-	restarts := []string{mode}
+	type restartPlan struct{ mode, first string }
+	restarts := []restartPlan{{mode, ""}}
+	other := map[string]string{"zstd": "uncompressed", "uncompressed": "zstd"}[mode]
 	if tier == "thorough" || wi%3 == 0 {
-		restarts = append(restarts, map[string]string{"zstd": "uncompressed", "uncompressed": "zstd"}[mode])
+		restarts = append(restarts, restartPlan{other, ""})
 	}
-	for ri, rmode := range restarts {
+	// every read path gets its turn at being the first to see the entry after the restart
+	// (quick: one of them per image, in rotation; thorough: all of them)
+	paths := readPathsOf(newE.kind)[1:]
+	if tier == "thorough" {
+		for _, p := range paths {
+			restarts = append(restarts, restartPlan{mode, p})
+		}
+		restarts = append(restarts, restartPlan{other, paths[seq%len(paths)]})
+	} else {
+		restarts = append(restarts, restartPlan{mode, paths[seq%len(paths)]})
+	}
+	defer func() { readFirst = "" }()
+	for ri, rp := range restarts {
+		rmode := rp.mode
+		readFirst = rp.first
 		dirB := filepath.Join(scratch, fmt.Sprintf("b%d-%d", seq, ri))
 		if _, err := copyTree(img, dirB, imgTimes); err != nil {
 			return runs, viols, err
@@ -567,8 +632,12 @@ func crashOne(scratch string, seq int, rng *rand.Rand, cs CrashCase, kind, write
 			}
 		}
 		desc := fmt.Sprintf("%s of a %s %s entry of %d bytes (earlier version acknowledged: %v), killed at: %s; restarted in %s mode", writer, mode, kind, len(newE.data), cs.Old, wh.name, rmode)
+		note := ""
+		if rp.first != "" {
+			note = " [first read after the restart: " + rp.first + "]"
+		}
 		bad := func(f string, a ...any) {
-			viols = append(viols, drv.Violation{Prop: "C08", What: desc + ": " + fmt.Sprintf(f, a...), Hist: seq})
+			viols = append(viols, drv.Violation{Prop: "C08", What: desc + ": " + fmt.Sprintf(f, a...) + note, Hist: seq})
 		}
 		fB, e := fe.New(fe.Opts{Dir: dirB, Mode: rmode, MaxSize: 1 << 30, NoValidateAC: kind == "raw", NoDepsCheck: true})
 		if e != nil {
@@ -615,6 +684,23 @@ func crashOne(scratch string, seq int, rng *rand.Rand, cs CrashCase, kind, write
 			case "old":
 				if has(cs.Acked, "new") {
 					bad("%s serves the earlier version although the later upload was acknowledged before the kill", path)
+				}
+			}
+		}
+		for _, e := range zero {
+			for _, sz := range []int64{-1, 0} {
+				if ok, n := fB.Cache.Contains(ctx, e.kind, e.hash, sz); !ok || n != 0 {
+					bad("an acknowledged empty %s value of another key is gone after the restart: Contains(size %d) answers %v, %d", e.kind, sz, ok, n)
+				}
+				rc, _, ge := fB.Cache.Get(ctx, e.kind, e.hash, sz, 0)
+				if ge != nil || rc == nil {
+					bad("an acknowledged empty %s value of another key is gone after the restart: Get(size %d) answers found=%v, %v", e.kind, sz, rc != nil, ge)
+					continue
+				}
+				b, re := io.ReadAll(rc)
+				rc.Close()
+				if re != nil || len(b) != 0 {
+					bad("an acknowledged empty %s value of another key is served as %d bytes (%v)", e.kind, len(b), re)
 				}
 			}
 		}
